@@ -43,6 +43,9 @@ Definition cneg (t : ity) (z : Z) : Z := cast (promote t) (- z).
 (* (y < 0) ? -y : y   as written in the sources (wraps for the most negative value) *)
 Definition cabs (t : ity) (z : Z) : Z := if z <? 0 then cneg t z else z.
 
+(* (y < 0) ? -Wide(y) : Wide(y)  with Wide = int64_t for integral sources (repaired, fix-11) *)
+Definition wabs (z : Z) : Z := if z <? 0 then cast (Ity 64 true) (- cast (Ity 64 true) z) else cast (Ity 64 true) z.
+
 (* ------------------------------------------------------------------ floating values carried as integers *)
 (* int -> float conversion (and double -> float): round to nearest, ties to even, prec-bit significand *)
 Definition rnd (prec z : Z) : Z :=
@@ -105,8 +108,8 @@ Section ModIntegral.
   (* E: Integer (repaired, fix-4):   Integer r;  x = Caster<Element>(Integer::mod(r, y, uint64_t(_p))) *)
   Definition mi_init_Integer (y : Z) : Z := cast St (y mod p).
   (* F: unsigned storage, every other Source:   reduce(x, Caster<Element>((y < 0) ? -y : y));  if (y < 0) negin(x) *)
-  Definition mi_init_gen_u_int (T : ity) (y : Z) : Z :=
-    let x := mi_reduce (cast St (cabs T y)) in if y <? 0 then mi_negin x else x.
+  Definition mi_init_gen_u_int (T : ity) (y : Z) : Z :=        (* repaired (fix-11): the negation is done in int64_t *)
+    let x := mi_reduce (cast St (wabs y)) in if y <? 0 then mi_negin x else x.
   Definition mi_init_gen_u_float (y : Z) : option Z :=
     obind (f2i St (Z.abs y)) (fun a => let x := mi_reduce a in Some (if y <? 0 then mi_negin x else x)).
   (* G: signed storage, every other Source:   reduce(Caster<Element>(x, y)) *)
@@ -170,6 +173,10 @@ Section Balanced.
   Definition mhalfp : Z := halfp - p + 1.
   Definition normalise (x : Z) : Z := if x <? mhalfp then x + p else if halfp <? x then x - p else x.
   Definition normalise_hi (x : Z) : Z := if halfp <? x then x - p else x.
+  (* generic template of the floating / int32_t variants (repaired, fix-6 and fix-9):
+       init(r, Caster<W>(a)),  W = uint64_t for unsigned sources, int64_t otherwise *)
+  Definition bf_generic (sgn : bool) (y : Z) : option Z :=
+    if sgn then Some (normalise (Z.rem (cast i64 y) p)) else Some (normalise_hi (Z.rem (cast u64 y) p)).
   (* floating element (prec = 53: double, 24: float) *)
   Definition bf_init (prec : Z) (s : src) (y : Z) : option Z :=
     match s with
@@ -180,14 +187,22 @@ Section Balanced.
           if bits T =? 64 then
             if sg T then Some (normalise (Z.rem y p))            (* int64_t:  y % int64_t(_up); NORMALISE *)
             else Some (normalise_hi (Z.rem y p))                 (* uint64_t: y % uint64_t(_up); NORMALISE_HI *)
-          else Some (normalise (Z.rem (cast i64 y) p))           (* generic (repaired, fix-6): init(r, Caster<int64_t>(a)) *)
+          else bf_generic (sg T) y                               (* generic (repaired, fix-6/9): forward to the int64_t / uint64_t overload *)
         else
           if 32 <=? bits T then
             if sg T then Some (normalise (Z.rem y p)) else Some (normalise_hi (Z.rem y p))
-          else Some (normalise (Z.rem (cast i64 y) p))
-    | SLL _ => Some (normalise (Z.rem (cast i64 y) p))           (* generic template *)
+          else bf_generic (sg T) y
+    | SLL sgn => bf_generic sgn y                                (* generic template *)
     | SRU _ => None
     end.
+  (* generic template, integral element.  int32_t (repaired, fix-6/9): forward to the int64_t / uint64_t overload;
+     int64_t (repaired, fix-10): an unsigned source is reduced as uint64_t before it is narrowed; then reduce(r) *)
+  Definition bi_generic (b : Z) (sgn : bool) (y : Z) : option Z :=
+    let E := Ity b true in
+    if b =? 32 then
+      if sgn then Some (normalise (cast E (Z.rem (cast i64 y) p))) else Some (normalise_hi (cast E (Z.rem (cast u64 y) p)))
+    else
+      let r := if sgn then cast E y else cast E (Z.rem (cast u64 y) p) in Some (normalise (Z.rem r p)).
   (* integral element (bits = 32 / 64) *)
   Definition bi_init (b : Z) (s : src) (y : Z) : option Z :=
     let E := Ity b true in
@@ -198,11 +213,8 @@ Section Balanced.
         if (b =? 32) && (bits T =? 64) then
           if sg T then Some (normalise (cast E (Z.rem y p)))            (* int64_t overload *)
           else Some (normalise_hi (cast E (Z.rem y p)))                 (* uint64_t overload *)
-        else if b =? 32 then Some (normalise (cast E (Z.rem (cast i64 y) p)))   (* generic (repaired, fix-6): init(r, Caster<int64_t>(a)) *)
-        else Some (normalise (Z.rem (cast E y) p))                      (* int64_t element, generic: r = Caster<Element>(a); reduce(r) *)
-    | SLL _ =>
-        if b =? 32 then Some (normalise (cast E (Z.rem (cast i64 y) p)))
-        else Some (normalise (Z.rem (cast E y) p))
+        else bi_generic b (sg T) y
+    | SLL sgn => bi_generic b sgn y
     | SRU _ => None
     end.
 End Balanced.
@@ -228,13 +240,17 @@ Section Mont32.
     if p <=? r then r - p else r.
   Definition mg_negin (r : Z) : Z := if r =? 0 then 0 else wrapu 32 (p - r).
   Definition mg_to (r : Z) : Z := mg_redc (wrapu 32 (r * mg_B2p)).
+  (* generic template (repaired, fix-6/9): init(r, Caster<W>(a)), W = uint64_t for unsigned sources, int64_t otherwise *)
+  Definition mg_generic (sgn : bool) (a : Z) : option Z :=
+    if sgn then let a := cast i64 a in let r := Z.abs (Z.rem a p) in Some (mg_to (if a <? 0 then mg_negin r else r))
+    else Some (mg_to (cast u64 a mod p)).
   Definition mg_init (s : src) (a : Z) : option Z :=
     match s with
     | SF prec =>
         if prec =? 53 then           (* r = static_cast<Element>(fmod(|a|, double(_p)));  if (a < 0) negin(r) *)
           let r := Z.rem (Z.abs a) p in Some (mg_to (if a <? 0 then mg_negin r else r))
-        else                         (* generic template (repaired, fix-6): init(r, Caster<int64_t>(a)) *)
-          obind (f2i i64 a) (fun a => let r := Z.abs (Z.rem a p) in Some (mg_to (if a <? 0 then mg_negin r else r)))
+        else                         (* generic template (repaired, fix-9): float is forwarded to the double overload *)
+          let r := Z.rem (Z.abs a) p in Some (mg_to (if a <? 0 then mg_negin r else r))
     | SInteger =>                    (* r = static_cast<Element>(((a < 0) ? -a : a) % _p) *)
         let r := Z.abs a mod p in Some (mg_to (if a <? 0 then mg_negin r else r))
     | SI T =>
@@ -242,10 +258,8 @@ Section Mont32.
           if sg T then               (* repaired (fix-2):  r = static_cast<Element>(std::abs(a % int64_t(_p))) *)
             let r := Z.abs (Z.rem a p) in Some (mg_to (if a <? 0 then mg_negin r else r))
           else Some (mg_to (a mod p))
-        else                         (* generic template (repaired, fix-6): init(r, Caster<int64_t>(a)) *)
-          let a := cast i64 a in let r := Z.abs (Z.rem a p) in Some (mg_to (if a <? 0 then mg_negin r else r))
-    | SLL sgn =>                     (* generic template: long long is converted to int64_t, unsigned long long wraps *)
-        let a := cast i64 a in let r := Z.abs (Z.rem a p) in Some (mg_to (if a <? 0 then mg_negin r else r))
+        else mg_generic (sg T) a     (* generic template *)
+    | SLL sgn => mg_generic sgn a
     | SRU _ => None
     end.
   (* convert:  Element c;  r = Caster<T>(redc(c, a)) *)
@@ -267,7 +281,7 @@ Section ModRuint.
   Definition ru_init (s : src) (a : Z) : option Z :=
     let fin (m : Z) := let r := m mod p in Some (if a <? 0 then ru_negin r else r) in
     match s with
-    | SI T => fin (ru_wrap (wrapu 64 (cabs T a)))          (* native integers are sign-extended to one limb *)
+    | SI T => fin (ru_wrap (wrapu 64 (wabs a)))            (* repaired (fix-11): negated in int64_t; sign-extended to one limb *)
     | SInteger => fin (ru_wrap (Z.abs a mod p))            (* repaired (fix-7): |a| is reduced modulo p as an Integer first *)
     | SRU K' => fin (ru_wrap a)
     | SF _ => obind (f2i u64 (Z.abs a)) (fun m => fin (ru_wrap m))
@@ -287,7 +301,7 @@ Section GFq.
     match s with
     | SF _ =>                                  (* init(double); float forwards to it *)
         let tr := Z.abs x in                   (* Signed_Trait<UTT>::max() is compared as a double *)
-        let otr := if rnd 53 (tmax UTT) <? tr then Some (Z.rem tr q)
+        let otr := if rnd 53 (tmax UTT) <=? tr then Some (Z.rem tr q)     (* repaired (fix-10): >= *)
                    else if q <=? tr then obind (f2i UTT tr) (fun u => Some (u mod q)) else Some tr in
         obind otr (fun tr => if x <? 0 then (if tr =? 0 then Some 0 else gf_idx (q - tr)) else gf_idx tr)
     | SI T =>
@@ -324,7 +338,7 @@ Section Log16.
   Definition lg_init_u (a : Z) : option Z := lg_idx (cast i16 (if p <=? a then a mod p else a)).
   Definition lg_init (s : src) (a : Z) : option Z :=
     match s with
-    | SF _ => obind (f2i i64 a) lg_init_i64                 (* init(a, (int64_t)i) *)
+    | SF _ => lg_init_i64 (Z.rem a p)                       (* repaired (fix-10): init(a, (int64_t)fmod(i, p)) *)
     | SI T =>
         if sg T || (bits T <? 16) then lg_init_i64 a else lg_init_u a
     | SInteger =>
@@ -371,20 +385,19 @@ Section Extended.
     let r := rnd prec (a - ex_q a * p) in
     if p <=? r then r - p else if r <? 0 then r + p else r.
   Definition ex_negin (r : Z) : Z := let x := - r in if x <? 0 then x + p else x.
+  (* (repaired, fix-12: the specialisations are written for the deduced types and therefore selected) *)
   Definition ex_init (s : src) (a : Z) : option Z :=
     match s with
-    | SInteger => Some (ex_reduce (rnd prec (trunc_to 53 a)))   (* generic (the `const Integer&` specialisations are never selected);
-                                                                   Integer::operator float is (float)mpz_get_d: truncate to double, then round *)
-    | SF sprec =>
-        if (prec =? 24) && (sprec =? 53) then            (* r = static_cast<float>(fmod(a, _p)); if (r < 0) r += _p *)
-          let r := Z.rem a p in Some (if r <? 0 then r + p else r)
-        else Some (ex_reduce (rnd prec a))
+    | SInteger =>                                        (* r = a % _lp;  if (r < 0) r += _p *)
+        let r := Z.rem a p in Some (if r <? 0 then r + p else r)
+    | SF _ =>                                            (* r = fmod(a, _p); if (r < 0) r += _p   (float forwards to double) *)
+        let r := Z.rem a p in Some (if r <? 0 then r + p else r)
     | SI T =>
-        if (prec =? 24) && (32 <=? bits T) then
-          if sg T then                                   (* repaired (fix-2):  r = std::abs(a % intN_t(_lp));  if (a < 0) negin(r) *)
+        if (if prec =? 24 then 32 <=? bits T else bits T =? 64) then
+          if sg T then                                   (* r = std::abs(a % intN_t(_lp));  if (a < 0) negin(r) *)
             let r := Z.abs (Z.rem a p) in Some (if a <? 0 then ex_negin r else r)
           else Some (a mod p)
-        else Some (ex_reduce (rnd prec a))
+        else Some (ex_reduce (rnd prec a))               (* generic: r = Caster<Element>(a); reduce(r) *)
     | SLL _ => Some (ex_reduce (rnd prec a))             (* generic *)
     | SRU _ => None
     end.
